@@ -87,10 +87,18 @@ inductive ExitKind where
   | ok | err | panic
   deriving Repr, DecidableEq, Inhabited
 
+/-- which node of the container a user function is executed for (not visible in Go;
+    carried by the model's events so that theorems can speak about nodes) -/
+inductive Who where
+  | ctor (n : Nat)
+  | deco (d : Nat)
+  | invoked
+  deriving Repr, DecidableEq, Inhabited
+
 inductive Event where
-  | enter (f x : Nat) (args : List Val)
-  | exit (f x : Nat) (r : ExitKind)
-  | cb (op : Nat) (fn : Nat) (err : Option DErr) (rt : Nat)
+  | enter (who : Who) (f x : Nat) (args : List Val)
+  | exit (who : Who) (f x : Nat) (r : ExitKind)
+  | cb (op : Nat) (who : Who) (fn : Nat) (err : Option DErr) (rt : Nat)
   deriving Repr, Inhabited
 
 structure St where
